@@ -47,8 +47,8 @@ func init() {
 		Meta: func(tier string) fw.Meta {
 			na, nb := c07Sizes(tier)
 			return fw.Meta{N: na + nb + c07FaultCases(tier), Level: "fault_enumeration", Chunk: 20, CaseTimeoutS: 600, MinNT: 300,
-				Rule:        "(a) seeded programs of 1..80 Append/AppendSync/Rotate calls with records nil/empty/1..3x the file size limit, limits {9,64,1024,1MiB}, writer buffers {64,4096,default}, 4 compression types; replays through the still-open log object in between (prefix of the appended records containing everything synced or rotated out so far), at the end a Replay through the same object and a fresh one must deliver exactly the appended sequence (nil and empty both replay as empty/nil payloads of length 0). (b) WAL-only sessions under strace (64-byte or 4 KiB writer buffer so that buffer flushes cut records, records up to 1 KiB, forced and size-triggered rotations) with INV/ACK markers: crash image after every mutating system call; Replay in a fresh process must succeed and deliver a prefix of the appended sequence containing every AppendSync acknowledged before the image. (c) over the same log: between the invocation and the acknowledgement of every AppendSync at least one write reached a WAL file and at the acknowledgement the WAL file written last (the one that received the record) has no written-but-unsynced bytes. (d) programs whose appender meets a failing write(2) (RLIMIT_FSIZE lowered in a sub-process for 1..3 calls or as a per-file cap; EFBIG from the kernel through the real writers, nothing killed) and goes on appending, retrying and rotating: a fresh Replay must succeed and deliver the attempted appends minus failed ones, cut off at some point, with no nil-returning append missing before a delivered one and no acknowledged synchronous append missing at all. evaluations = programs + distinct images; non-trivial = program with a rotation and >=3 records / traced session with >=50 images In (a) the base path is handed over in five spellings (cleaned, trailing separator, '.' segment, doubled separator, 'x/../x'), the fresh replayer gets another spelling than the appender; every 10th program shares its process with two other logs that are appended to (4000 records each) from goroutines of their own and replayed afterwards. Direct-I/O programs have 120..320 calls and limits of 40 KB..1 MiB (an 8 KiB write buffer is flushed many times per file).",
-				MinObs:      map[string]int64{"programs_with_a_base_path_not_in_cleaned_form": 100, "programs_sharing_the_process_with_two_concurrently_appended_logs": 20, "programs_replayed": 1000, "records_of_half_a_mebibyte_or_more": 10, "replays_through_the_open_log_object": 1000, "rotations_size_triggered": 500, "rotations_forced": 300, "records_larger_than_limit": 200, "wal_sessions_traced": 4, "wal_images_replayed": 1500, "sync_appends_checked_for_fsync": 300, "wal_images_with_cut_record": 50, "wal_fault_programs": 300, "wal_fault_programs_with_a_failed_write": 150, "wal_rotations_attempted_after_a_failed_write": 100, "wal_failed_write_inside_a_record_larger_than_the_buffer": 5},
+				Rule:        "(a) seeded programs of 1..80 Append/AppendSync/Rotate calls with records nil/empty/1..3x the file size limit, limits {9,64,1024,1MiB}, writer buffers {64,4096,default}, 4 compression types; replays through the still-open log object in between (prefix of the appended records containing everything synced or rotated out so far), at the end a Replay through the same object and a fresh one must deliver exactly the appended sequence (nil and empty both replay as empty/nil payloads of length 0). (b) WAL-only sessions under strace (64-byte or 4 KiB writer buffer so that buffer flushes cut records, records up to 1 KiB, forced and size-triggered rotations) with INV/ACK markers: crash image after every mutating system call; Replay in a fresh process must succeed and deliver a prefix of the appended sequence containing every AppendSync acknowledged before the image. (c) over the same log: between the invocation and the acknowledgement of every AppendSync at least one write reached a WAL file and at the acknowledgement the WAL file written last (the one that received the record) has no written-but-unsynced bytes. (d) programs whose appender meets a failing write(2) (RLIMIT_FSIZE lowered in a sub-process for 1..3 calls or as a per-file cap; EFBIG from the kernel through the real writers, nothing killed) and goes on appending, retrying and rotating: a fresh Replay must succeed and deliver the attempted appends minus failed ones, cut off at some point, with no nil-returning append missing before a delivered one and no acknowledged synchronous append missing at all. evaluations = programs + distinct images; non-trivial = program with a rotation and >=3 records / traced session with >=50 images In (a) the base path is handed over in five spellings (cleaned, trailing separator, '.' segment, doubled separator, 'x/../x'), the fresh replayer gets another spelling than the appender; every 10th program shares its process with two other logs that are appended to (4000 records each) from goroutines of their own and replayed afterwards. Two programs in five of (a) replay through a reader factory with a 64-byte or 1 KiB read buffer (records larger than the reader's buffer). Direct-I/O programs have 120..320 calls and limits of 40 KB..1 MiB (an 8 KiB write buffer is flushed many times per file).",
+				MinObs:      map[string]int64{"programs_replayed_through_a_reader_buffer_smaller_than_some_records": 100, "programs_with_a_base_path_not_in_cleaned_form": 100, "programs_sharing_the_process_with_two_concurrently_appended_logs": 20, "programs_replayed": 1000, "records_of_half_a_mebibyte_or_more": 10, "replays_through_the_open_log_object": 1000, "rotations_size_triggered": 500, "rotations_forced": 300, "records_larger_than_limit": 200, "wal_sessions_traced": 4, "wal_images_replayed": 1500, "sync_appends_checked_for_fsync": 300, "wal_images_with_cut_record": 50, "wal_fault_programs": 300, "wal_fault_programs_with_a_failed_write": 150, "wal_rotations_attempted_after_a_failed_write": 100, "wal_failed_write_inside_a_record_larger_than_the_buffer": 5},
 				Assumptions: []string{"kill -9 model as in C02", "nil and empty records are not distinguished by the WAL's consumers (both have length 0)"},
 			}
 		},
@@ -60,14 +60,25 @@ func init() {
 }
 
 func walOpts(dir string, limit uint64, wbuf, comp int) (*wal.Options, error) {
-	return wal.NewWriteAheadLogOptions(wal.BasePath(dir), wal.MaximumWalFileSizeBytes(limit),
+	return walOptsR(dir, limit, wbuf, comp, 0)
+}
+
+// walOptsR: as walOpts, with a reader factory whose read buffer has rbuf bytes (0 = the library's default factory)
+func walOptsR(dir string, limit uint64, wbuf, comp, rbuf int) (*wal.Options, error) {
+	extra := []wal.Option{}
+	if rbuf > 0 {
+		extra = append(extra, wal.ReaderFactory(func(path string) (recordio.ReaderI, error) {
+			return recordio.NewFileReader(recordio.ReaderPath(path), recordio.ReaderBufferSizeBytes(rbuf))
+		}))
+	}
+	return wal.NewWriteAheadLogOptions(append(extra, wal.BasePath(dir), wal.MaximumWalFileSizeBytes(limit),
 		wal.WriterFactory(func(path string) (recordio.WriterI, error) {
 			o := []recordio.FileWriterOption{recordio.Path(path), recordio.CompressionType(comp)}
 			if wbuf > 0 {
 				o = append(o, recordio.BufferSizeBytes(wbuf))
 			}
 			return recordio.NewFileWriter(o...)
-		}))
+		}))...)
 }
 
 func recHash(b []byte) string {
@@ -139,7 +150,13 @@ func runC07(c *fw.Case) {
 			}
 		}()
 	}
-	opts, err := walOpts(spell(spelling), limit, wbuf, comp)
+	// two programs in five replay through a reader factory with a small read buffer (64 B / 1 KiB): records are then
+	// often LARGER than the reader's buffer (the default one has 4 MiB), both through the log object and afresh
+	rbuf := []int{0, 64, 0, 1024, 0}[c.Idx/2%5]
+	if rbuf > 0 && !direct {
+		c.Obs("programs_replayed_through_a_reader_buffer_smaller_than_some_records", 1)
+	}
+	opts, err := walOptsR(spell(spelling), limit, wbuf, comp, rbuf)
 	if direct {
 		opts, err = wal.NewWriteAheadLogOptions(wal.BasePath(dir), wal.MaximumWalFileSizeBytes(limit),
 			wal.WriterFactory(func(path string) (recordio.WriterI, error) {
@@ -155,7 +172,7 @@ func runC07(c *fw.Case) {
 		c.Violate("wal/create-error", "%v", err)
 		return
 	}
-	cfg := fmt.Sprintf("limit=%d wbuf=%d comp=%d directIO=%v", limit, wbuf, comp, direct)
+	cfg := fmt.Sprintf("limit=%d wbuf=%d comp=%d directIO=%v rbuf=%d", limit, wbuf, comp, direct, rbuf)
 	c.HashAdd(cfg)
 	var want []string
 	var prog []string
@@ -297,7 +314,7 @@ func runC07(c *fw.Case) {
 	}
 	ropts := opts
 	if spelling2 != spelling {
-		if ropts, err = walOpts(spell(spelling2), limit, wbuf, comp); err != nil {
+		if ropts, err = walOptsR(spell(spelling2), limit, wbuf, comp, rbuf); err != nil {
 			c.Violate("harness/walopts", "%v", err)
 			return
 		}
